@@ -314,16 +314,16 @@ PROPS = {
         # every observed field belongs to C16 here: a callback that sees another state or never returns
         "reject_is_fail_fields": ["ret"],
         "campaigns": {
-            "quick": [{"name": "mem-reentrant", "args": ["mode=oracle", "cases=1500", "maxops=30", "cb=1", "watchdog=20"]},
-                      {"name": "mem-drop-reentrant", "args": ["mode=algo", "cases=600", "maxops=30", "dropre=1", "watchdog=20"]}],
-            "thorough": [{"name": "mem-reentrant", "args": ["mode=oracle", "cases=40000", "maxops=60", "cb=1", "watchdog=30"]},
-                         {"name": "mem-reentrant-algo", "args": ["mode=algo", "cases=20000", "maxops=60", "cb=1", "watchdog=30"]},
-                         {"name": "mem-drop-reentrant", "args": ["mode=algo", "cases=20000", "maxops=60", "dropre=1", "watchdog=30"]}],
+            "quick": [{"name": "mem-reentrant", "args": ["mode=oracle", "cases=1500", "maxops=30", "cb=1", "watchdog=45"]},
+                      {"name": "mem-drop-reentrant", "args": ["mode=algo", "cases=600", "maxops=30", "dropre=1", "watchdog=45"]}],
+            "thorough": [{"name": "mem-reentrant", "args": ["mode=oracle", "cases=40000", "maxops=60", "cb=1", "watchdog=60"]},
+                         {"name": "mem-reentrant-algo", "args": ["mode=algo", "cases=20000", "maxops=60", "cb=1", "watchdog=60"]},
+                         {"name": "mem-drop-reentrant", "args": ["mode=algo", "cases=20000", "maxops=60", "dropre=1", "watchdog=60"]}],
         },
         "nontrivial": r"nested=1",
         "rule": "single-shard caches of all five algorithms whose EventListener re-enters the same cache from inside on_leave "
                 "(contains / get+drop / insert of a fresh key / remove), while weighter and filter are ordinary closures; random op "
-                "sequences; each operation runs under a watchdog (no progress for 20 s = deadlock, reported with the operation); the "
+                "sequences; each operation runs under a watchdog (no progress for 45 s = deadlock, reported with the operation); the "
                 "nested operations' results and the state they observe are compared with the model's post-unlock semantics; "
                 "a second campaign gives the values a destructor that looks its key up in the same cache, on caches built with "
                 "and without an event listener (all five algorithms, model-predicted victims): a value dropped under a shard "
@@ -475,8 +475,9 @@ PROPS.update({
         "theorems": ["Foyer.Hyb.recovery_picks_latest", "Foyer.Hyb.recovery_honours_tombstones",
                      "Foyer.Hyb.disk_lookup_own_key_or_miss", "Foyer.Hyb.memory_hit_returns_memory",
                      "Foyer.Hyb.insAll_max",
-                     "Foyer.Hyb.woi_stepCore", "Foyer.Hyb.woi_step", "Foyer.Hyb.woi_reads_truth"],
-        "extra_modules": ["FoyerProofs.C01Woi"],
+                     "Foyer.Hyb.woi_stepCore", "Foyer.Hyb.woi_step", "Foyer.Hyb.woi_reads_truth",
+                     "Foyer.Hyb.woe_stepCore", "Foyer.Hyb.woe_step", "Foyer.Hyb.woe_reads_truth"],
+        "extra_modules": ["FoyerProofs.C01Woi", "FoyerProofs.C01Woe"],
         "monitor_props": ["C01"],
         "campaigns": {
             "quick": [{"name": "hyb-random", "args": ["cases=250", "maxops=25"]},
@@ -611,9 +612,9 @@ PROPS.update({
                      "Foyer.Rcl.reclaim_serves_waiter"],
         "monitor_props": ["C09"],
         "campaigns": {
-            "quick": [{"name": "blk-overload", "args": ["cases=250", "maxops=60", "overload=1", "watchdog=30"]},
-                      {"name": "blk-overload-nodel", "args": ["cases=100", "maxops=60", "overload=1", "nodel=1", "watchdog=30"]},
-                      {"name": "blk-reinsertion", "args": ["cases=60", "maxops=120", "overload=1", "reins=1", "watchdog=30"]}],
+            "quick": [{"name": "blk-overload", "args": ["cases=250", "maxops=60", "overload=1", "watchdog=60"]},
+                      {"name": "blk-overload-nodel", "args": ["cases=100", "maxops=60", "overload=1", "nodel=1", "watchdog=60"]},
+                      {"name": "blk-reinsertion", "args": ["cases=60", "maxops=120", "overload=1", "reins=1", "watchdog=60"]}],
             "thorough": [{"name": "blk-overload", "args": ["cases=6000", "maxops=100", "overload=1", "watchdog=60"]},
                          {"name": "blk-overload-nodel", "args": ["cases=3000", "maxops=100", "overload=1", "nodel=1", "watchdog=60"]},
                          {"name": "blk-reinsertion", "args": ["cases=2000", "maxops=160", "overload=1", "reins=1", "watchdog=60"]}],
@@ -664,8 +665,8 @@ PROPS.update({
         "monitor_props": ["C04"],
         "reject_is_fail_fields": [],
         "campaigns": {
-            "quick": [{"name": "crash-enum", "args": ["cases=60", "maxops=16", "watchdog=20"]}],
-            "thorough": [{"name": "crash-enum", "args": ["cases=1500", "maxops=30", "watchdog=30"]}],
+            "quick": [{"name": "crash-enum", "args": ["cases=60", "maxops=16", "watchdog=45"]}],
+            "thorough": [{"name": "crash-enum", "args": ["cases=1500", "maxops=30", "watchdog=60"]}],
         },
         "nontrivial": r"op=crash at=[1-9]",
         "rule": "a workload of inserts (all size classes), overwrites, storage-writer inserts, removes, waits, evictions and "
@@ -711,8 +712,8 @@ PROPS.update({
                      "Foyer.Hyb.disk_lookup_own_key_or_miss"],
         "monitor_props": ["C03"],
         "campaigns": {
-            "quick": [{"name": "fault-enum", "args": ["cases=25", "maxops=14", "watchdog=20"]}],
-            "thorough": [{"name": "fault-enum", "args": ["cases=600", "maxops=24", "watchdog=30"]}],
+            "quick": [{"name": "fault-enum", "args": ["cases=25", "maxops=14", "watchdog=45"]}],
+            "thorough": [{"name": "fault-enum", "args": ["cases=600", "maxops=24", "watchdog=60"]}],
         },
         "nontrivial": r"op=fault kind=(flip|zero|swapw|swapx|stale|tombflip|multi)",
         "rule": "a workload (inserts of all size classes, overwrites, storage-writer inserts, removes, waits, evictions; both "
